@@ -170,6 +170,12 @@ func checkAndUpdateTotalPendingStakesOfValidator(cfg *params.YouParams, db *stat
 		totalTokens.Set(val.Token)
 	}
 	totalTokens.Add(totalTokens, deltaTokens)
+	if totalTokens.Sign() < 0 {
+		// the record is only an estimate of the validator's tokens after the period: several pending
+		// withdraws can make it smaller than what the delegators hold. It must never become negative,
+		// a negative value can not be written to the staking trie.
+		totalTokens.SetUint64(0)
+	}
 	if deltaTokens.Sign() > 0 {
 		stake := params.YOUToStake(totalTokens).Uint64()
 		if threshold := cfg.MaxStakes[val.Role]; threshold > 0 && stake > threshold {
